@@ -93,7 +93,7 @@ def ctor_lengths(eng_factory, lengths, assume_fn, res, label):
                     res['inconclusive'].append(f"{label} L={L}: {path.kind} {str(path.value)[:80]}")
             if wit < 1 and L % 5 == 2 and eng.check3() == 'sat':
                 wit += 1
-                pl = bytes(eng.solver.model().eval(sym.byte_term(e), model_completion=True).as_long() for e in H['p'].e)
+                pl = bytes(eng.model().eval(sym.byte_term(e), model_completion=True).as_long() for e in H['p'].e)
                 res['witnesses'].append({'kind': 'construct', 'payload': pl.hex(), 'checks': ['total', 'overrun']})
         res.absorb_engine(eng)
     res['trunc'] = [t for t in res['trunc'] if t and t[0] not in ('conc_limit',)]
@@ -101,7 +101,7 @@ def ctor_lengths(eng_factory, lengths, assume_fn, res, label):
 
 def emit(eng, p, res, why, checks, hang=False):
     if eng.check3() == 'sat':
-        mdl = eng.solver.model()
+        mdl = eng.model()
         pl = bytes(mdl.eval(sym.byte_term(e), model_completion=True).as_long() for e in p.e)
         c = {'kind': 'construct', 'payload': pl.hex(), 'checks': checks, 'why': why, 'dedup': why.split(':')[0][:20] + why[-60:]}
         if hang:
@@ -207,7 +207,7 @@ def run_parse(spec, res):
             elif ok is False:
                 res['refuted'] += 1
                 if eng.check3() == 'sat':
-                    mdl = eng.solver.model()
+                    mdl = eng.model()
                     buf = rdrdrv.model_bytes(mdl, H['b'])
                     vv = mdl.eval(H['v'].t, model_completion=True).as_long()
                     why = f"parse L={L}: {type(path.value).__name__}: {str(path.value)[:80]}"
@@ -257,13 +257,13 @@ def run_stream(spec, res):
             res['discharged'] += 1
             if wit < 2 and path.value.events and eng.check3() == 'sat':
                 wit += 1
-                res['witnesses'].append({'kind': 'stream', 'data': rdrdrv.fix_crcs(eng.solver.model(), H['data'], path.value).hex(), 'mode': mode,
+                res['witnesses'].append({'kind': 'stream', 'data': rdrdrv.fix_crcs(eng.model(), H['data'], path.value).hex(), 'mode': mode,
                                          'faults': {str(c): k for c, k in path.value.stream.fault_seen}, 'checks': ['c04', 'c01']})
             continue
         res['refuted'] += 1
         if eng.check3() == 'sat':
             run = path.value if path.kind == 'ret' else None
-            mdl = eng.solver.model()
+            mdl = eng.model()
             data = rdrdrv.fix_crcs(mdl, H['data'], run) if run is not None else rdrdrv.model_bytes(mdl, H['data'])
             c = {'kind': 'stream', 'data': data.hex(), 'mode': mode, 'checks': ['c04'], 'why': why,
                  'faults': {str(c_): k for c_, k in run.stream.fault_seen} if run is not None else {}, 'dedup': f"stream:{why[:50]}:{mode}"}
